@@ -1,11 +1,15 @@
 import Driver.Util
 import Driver.Ops.Integer
 import Driver.Ops.Real
+import Driver.Ops.OidTime
+import Driver.Ops.Fixer
 open Driver
 
 def handlers : List Handler := [
   Driver.Ops.Integer.run,
-  Driver.Ops.Real.run
+  Driver.Ops.Real.run,
+  Driver.Ops.OidTime.run,
+  Driver.Ops.Fixer.run
 ]
 
 def step (line : String) : String :=
